@@ -446,6 +446,31 @@ def r4_lm_step(rule, root=None):
         rule.bad("lm|damping|leave", "the retry loop is left although the trial error rose", A.where(SOL, n))
 
 
+def r5_every_equation(rule, root=None):
+    """the Jacobian row and the residual of *every* equation are recomputed in every iteration, and the trial error sums
+    over every equation: the loops over the tapes have no early exit"""
+    for name, what in (("get_jacobian", "self.grad_tapes"), ("get_err", "self.point_tapes")):
+        fn = A.find_fn(SOL, name, self_ty="Solver", root=root)
+        loops = [f for f in A.find(fn["body"], "For") if what in txt(f["iter"])]
+        if not loops:
+            loops = [c for c in A.find(fn["body"], "MethodCall") if c["method"] in ("for_each", "map", "fold") and what in txt(c["recv"])]
+        if not loops:
+            rule.lost("the loop over %s in Solver::%s" % (what, name))
+            continue
+        lp = loops[0]
+        body = lp.get("body") or lp
+        # exits that belong to an inner loop are fine
+        bad = []
+        for b in list(A.find(body, "Break")) + list(A.find(body, "Return")):
+            inner = [f for f in A.find(body, None, lambda q: q.get("k") in ("For", "While", "Loop")) if any(n is b for n in A.walk(f))]
+            if b.get("k") == "Return" or not inner:
+                bad.append(b)
+        if bad:
+            rule.bad("%s|exit" % name, "Solver::%s leaves its loop over the equations early (`%s` under `%s`): the equations after that one keep stale rows / residuals, so they no longer constrain the solution" % (name, A.unparse(bad[0])[:30], " && ".join(A.enclosing_conds(fn["body"], bad[0]) or [])[:80]), A.where(SOL, bad[0]))
+        else:
+            rule.ok("Solver::%s visits every equation" % name, file=SOL, line=lp.get("ln", fn["ln"]))
+
+
 def run(ctx):
     r = ctx.rule("R1", "only free parameters get a gradient slot and a result; fixed ones are constants at their value", 7)
     ctx.guarded(r, r1_free_fixed)
@@ -455,3 +480,5 @@ def run(ctx):
     ctx.guarded(r, r3_exits)
     r = ctx.rule("R4", "Levenberg-Marquardt step: (J^T J + damping D) delta = J^T r on symbolic matrices; damping grows on a worse trial and shrinks on an accepted one", 4)
     ctx.guarded(r, r4_lm_step)
+    r = ctx.rule("R5", "every equation is evaluated in every iteration: the loops over the tapes have no early exit", 2)
+    ctx.guarded(r, r5_every_equation)
